@@ -51,6 +51,17 @@ with builtin ``print(chunk, end="")`` to the redirected sys.stdout / ``sys.stder
 (and alternating between both), the file replayed on the vf/term.py Screen and the
 rows above the live frame read back.
 
+Part 3, foreign ANSI through ONE decoder instance (decoder history, E1).  What other programs
+write and rich never does: OSC 8 hyperlinks with an empty parameter field, id=1 / id=2 / another
+parameter, ST or BEL terminated, to two targets; closes with and without parameters, closes
+without an open; links spanning a line end, SGR on / SGR reset inside a link.  Streams = all
+sequences of 1, 2 and 3 segments "[open] inner [close] sep" over these menus (so: several links
+with equal params and different targets, re-opened links, an id reused for another target), decoded
+by ONE ``AnsiDecoder().decode`` and compared per character with vf/term.py's Decoder on the same
+bytes (a hyperlink is not an SGR attribute: SGR 0 does not close it).  The FileProxy part has the
+line alphabet LF (id-less links to two targets, one id for two targets, a link left open over the
+line end, a close without open, two links on one line) cut across write() calls like the others.
+
 Measured (the machine was shared with ~15 other jobs, load average 60-120, so wall times are
 upper bounds; CPU cost is ~0.65 ms per history and ~1.2 ms per round-trip line when unloaded):
   quick    278,283 judged cases (35.5 k lines + 242.8 k histories, 1.20 M write/flush calls),
@@ -1050,14 +1061,24 @@ def describe(tier, seed, res):
                 "Alphabets: L5 = plain, empty, SGR-styled, markup-like, wide; L9 = L5 + emoji-code-like, closing-tag-like, "
                 "number, line leaving SGR 31 open; L11 = L9 + SGR 22 line, OSC-8 link line; LK = plain + 16 OSC-8 link lines "
                 "whose URLs contain ; : = \\ %% # ? & [ ] and id= look-alikes. "
+                "LF = plain + 7 foreign hyperlink lines (id-less links to 2 targets, id=1 for 2 targets, link left open, "
+                "close without open, two links on a line). "
+                "Part 3 (FD): foreign OSC 8 streams through ONE AnsiDecoder instance: all sequences of 1 / 2 / 3 segments "
+                "[open] inner [close] sep over menus of %d / %d / %d segments (open: none, params ''/id=1/id=2/k=v x 2 targets ST, "
+                "3 BEL forms; inner: x, x-newline-y, x SGR1 y, x SGR0 y; close: none, ST, BEL, with id; sep: none, newline, z newline; "
+                "reduced menus for the longer sequences), compared per character with vf/term.py on the same bytes. "
                 "A case is non-trivial when a write boundary falls inside a line or a flush emits a partial line (part 2) / "
                 "when some character carries a style (part 1); distinct = distinct outcome signatures."
-                % (len(universe(tier)), len(pair_menu(tier)), len(triple_menu(tier)), sets),
+                % (len(universe(tier)), len(pair_menu(tier)), len(triple_menu(tier)), sets,
+                   len(_fd_menu(_fd_levels(tier)["F1"][1])), len(_fd_menu(_fd_levels(tier)["F2"][1])),
+                   len(_fd_menu(_fd_levels(tier)["F3"][1]))),
         "assumptions": [
             "expected (char, attributes, colours, link) are computed from the style descriptions, not from rich.style",
             "terminal meaning of a stream = vf/term.py decoder (SGR state carried across lines; default colour == unset)",
             "whether a flushed partial line is followed by a newline is not specified: both accepted",
             "a flush strictly inside an escape sequence has no defined styling: such histories only have to run without exception",
+            "foreign streams: SGR 0 resets attributes and colours but not an open OSC 8 hyperlink (VTE / xterm behaviour); "
+            "OSC sequences end at ST or BEL",
             "write() return values are not judged (the statement is silent)",
             "pending text that is never flushed before the display stops is not required to appear",
         ],
